@@ -75,6 +75,8 @@ def run(name, ids):
         for cid in ids:
             t0 = time.time()
             rc, out = sh(f"./check {cid} quick", cwd=V, timeout=3600)
+            os.makedirs("/tmp/seeded_out", exist_ok=True)
+            open(f"/tmp/seeded_out/{name}-{cid}.log", "w").write(out[-20000:])
             keys = re.findall(r"^\s+key: (.*)$", out, re.M)
             results[cid] = {"tier": "quick", "exit": rc, "detected": rc == 1, "keys": keys[:8], "wall_s": round(time.time() - t0, 1)}
             print(name, cid, "exit", rc, keys[:4])
